@@ -6,7 +6,8 @@ import json, os, re, subprocess, sys, time
 V = os.path.dirname(os.path.dirname(os.path.abspath(__file__)))
 EXTRA = {'C04_1': ['C04', 'C11'], 'C11_1': ['C11', 'C04'], 'C18_2': ['C16', 'C18'], 'C03_2': ['C03', 'C07'], 'C16_1': ['C16', 'C18'],
          'C13_4': ['C13', 'C07'], 'C03_4': ['C03', 'C07'], 'C15_3': ['C15', 'C04'],
-         'C11_3': ['C11', 'C15', 'C04'], 'C11_4': ['C11', 'C10'], 'C10_3': ['C10', 'C11'], 'C10_4': ['C10', 'C11']}
+         'C11_3': ['C11', 'C15', 'C04'], 'C15_5': ['C15', 'C04', 'C11'], 'C15_6': ['C15', 'C04'], 'C11_5': ['C11', 'C10'], 'C11_6': ['C11', 'C10'],
+         'C07_5': ['C07', 'C03'], 'C07_6': ['C07', 'C03'], 'C11_4': ['C11', 'C10'], 'C10_3': ['C10', 'C11'], 'C10_4': ['C10', 'C11']}
 args_ = [a for a in sys.argv[1:] if not a.startswith('-j')]
 JOBS = int(([a[2:] for a in sys.argv[1:] if a.startswith('-j')] or ['3'])[0])
 seeds = args_ or sorted(d for d in os.listdir(os.path.join(V, 'seeded')) if os.path.isdir(os.path.join(V, 'seeded', d)))
